@@ -684,6 +684,11 @@ Definition sd_thread_ok (c : cfg) (s : state) (n : nat) (want_cancel : bool) : g
    (3, 46, if inline then true
            else match hs (Hd s n) with HRunning => Bool.eqb (hcp (Hd s n)) want_cancel | _ => false end)).
 
+(* FIFO of the event loop: the first step of every handler task created by the broadcast of [n]
+   runs before anything can wake or cancel the wait that follows their creation *)
+Definition handlers_stepped (c : cfg) (s : state) (n : nat) : bool :=
+  forallb (fun x => match hs (Hd s x) with HCreated => false | _ => true end) (members c n).
+
 (* [guards]: what must hold for the event to be enabled, each with the level from which it is
    enforced and a diagnostic code *)
 Definition guards (c : cfg) (s : state) (e : event) : list guard :=
@@ -724,7 +729,7 @@ Definition guards (c : cfg) (s : state) (e : event) : list guard :=
        (3, 43, match p with [] => true | _ => opt_le_now s (sdl ss) end);
        (0, 44, if inline && match p with [] => true | _ => false end
                then culprit_ok c s n (why_of s n) (culprit_of o) else true)]
-       ++ outs_guards 45 o mo
+       ++ outs_guards 45 o mo ++ [(3, 47, handlers_stepped c s n)]
   | EWake n KShTidy d o =>
       let ss := Sd s n in
       let inline := sd_inline s n in
@@ -748,7 +753,7 @@ Definition guards (c : cfg) (s : state) (e : event) : list guard :=
   | ECancelled n k o =>
       [fst (sd_thread_ok c s n true); snd (sd_thread_ok c s n true);
        (3, 91, match sp (Sd s n), k with SdWait, KShut => true | SdTidy, KShTidy => true | _, _ => false end)]
-       ++ outs_guards 92 o mo
+       ++ outs_guards 92 o mo ++ [(3, 93, handlers_stepped c s n)]
   | ESdStart n o =>
       [(0, 100, sched_id c n);
        (3, 101, match hs (Hd s n) with
